@@ -142,7 +142,7 @@ Print Assumptions c45_literal_partial.
 (** Non-vacuity: a concrete history in which identity 0 is registered by its key, gives itself a
     second key, is used as controller to register and extend identity 1, revokes itself — after
     which it cannot be registered again and identity 1 can no longer be changed through it.
-    Theorem 1 applies to the accepted steps (their records change), theorem 3 to the last ones. *)
+    Statement 1 applies to the accepted steps (their records change), statement 3 to the last ones. *)
 Definition c45_example_history : list event :=
   [ mkEv false [100] (RegIdWithPublicKey 0 (BKey 100));
     mkEv false [100] (AddKeyByIndex 0 (BKey 101) 1);
